@@ -68,25 +68,29 @@ type frame struct {
 }
 
 type FnExec struct {
-	eng      *Engine
-	script   *Script
-	regs     map[ssa.Value]Val
-	nfresh   int
-	heapSort map[string]string
-	quiet    bool // discovery mode: no obligations are recorded
-	sentinel map[*ssa.Global]int
-	globals  map[*ssa.Global]Val
-	tids     map[string]int
-	unknown  map[string]int // callees without contract
-	used     map[string]bool
-	abstracted map[string]int
-	allocN   int
-	errs     []string
-	changed  bool // discovery: havoc set grew
-	top      *frame
-	pkg      *types.Package
+	eng           *Engine
+	script        *Script
+	regs          map[ssa.Value]Val
+	nfresh        int
+	heapSort      map[string]string
+	quiet         bool // discovery mode: no obligations are recorded
+	sentinel      map[*ssa.Global]int
+	globals       map[*ssa.Global]Val
+	tids          map[string]int
+	unknown       map[string]int // callees without contract
+	used          map[string]bool
+	abstracted    map[string]int
+	allocN        int
+	errs          []string
+	changed       bool // discovery: havoc set grew
+	top           *frame
+	pkg           *types.Package
 	blocksReached int
-	phiEdges map[*ssa.BasicBlock][]phiEdge
+	phiEdges      map[*ssa.BasicBlock][]phiEdge
+	ifaceType     map[Term]types.Type // interface value term -> pointee type of the boxed pointer
+	curArgTypes   []types.Type
+	owned         map[Term]bool
+	curInstr      ssa.Instruction
 }
 
 func (fe *FnExec) fresh(hint, sort string) Term {
@@ -825,7 +829,9 @@ func (fe *FnExec) mergeStates(fr *frame, b *ssa.BasicBlock, ins []*State) *State
 			}
 		}
 	}
-	sort.Slice(keys, func(i, j int) bool { return keys[i].Pos() < keys[j].Pos() || (keys[i].Pos() == keys[j].Pos() && keys[i].Name() < keys[j].Name()) })
+	sort.Slice(keys, func(i, j int) bool {
+		return keys[i].Pos() < keys[j].Pos() || (keys[i].Pos() == keys[j].Pos() && keys[i].Name() < keys[j].Name())
+	})
 	for _, k := range keys {
 		var vs []Val
 		var ps []Term
@@ -994,7 +1000,6 @@ type phiEdge struct {
 	st   *State
 }
 
-
 func (fe *FnExec) notePhiEdge(b, p *ssa.BasicBlock, e *State) {
 	if len(b.Instrs) > 0 {
 		if _, ok := b.Instrs[0].(*ssa.Phi); ok {
@@ -1046,13 +1051,25 @@ func (fe *FnExec) enterLoop(fr *frame, li *loopInfo, st *State) {
 	for c := range li.havocCells {
 		cs = append(cs, c)
 	}
-	sort.Slice(cs, func(i, j int) bool { return cs[i].Pos() < cs[j].Pos() || (cs[i].Pos() == cs[j].Pos() && cs[i].Name() < cs[j].Name()) })
+	sort.Slice(cs, func(i, j int) bool {
+		return cs[i].Pos() < cs[j].Pos() || (cs[i].Pos() == cs[j].Pos() && cs[i].Name() < cs[j].Name())
+	})
 	for _, c := range cs {
 		if _, ok := st.cells[c]; ok {
 			st.cells[c] = fe.freshVal(c.Type().(*types.Pointer).Elem(), "lp."+c.Comment)
 			if c.Comment == "rangeindex" {
 				// structural invariant of go/ssa's range lowering: the index starts at -1 and only increments
-				fe.assume(tAnd(sx("<=", "(- 1)", fe.intTerm(st.cells[c])), sx("<", fe.intTerm(st.cells[c]), maxLen)), "range index in [-1, len)")
+				bound := Term(maxLen)
+				if len(li.head.Instrs) > 0 {
+					if iff, ok := li.head.Instrs[len(li.head.Instrs)-1].(*ssa.If); ok {
+						if bo, ok := iff.Cond.(*ssa.BinOp); ok && bo.Op == token.LSS {
+							if lv, ok := fe.regs[bo.Y]; ok {
+								bound = fe.intTerm(lv)
+							}
+						}
+					}
+				}
+				fe.assume(tAnd(sx("<=", "(- 1)", fe.intTerm(st.cells[c])), sx("<", fe.intTerm(st.cells[c]), bound), sx("<", fe.intTerm(st.cells[c]), maxLen)), "range index in [-1, len)")
 			}
 		}
 	}
